@@ -29,6 +29,7 @@ type faultSession struct {
 	marCount  int
 	marFail   int
 	lastErr   string
+	lastViol  string
 }
 
 func newFaultSession(c Cfg) *faultSession {
@@ -96,7 +97,7 @@ func (fs *faultSession) Exec(line string) (obs, viol string) {
 			fs.positions++
 			if !hit {
 				fs.lastObs = o1
-				return o1, ""
+				return o1, fs.lastViol
 			}
 			if strings.HasPrefix(o1, "panic") {
 				fs.aborted = true
@@ -104,7 +105,12 @@ func (fs *faultSession) Exec(line string) (obs, viol string) {
 				return "panic-abort", ""
 			}
 			if !strings.HasPrefix(o1, "err") {
-				fs.lastObs = o1 // fault swallowed, call succeeded: result compared with the model
+				// fault swallowed, call succeeded: result compared with the model, and the
+				// operation's own oracle applies to what it returned
+				fs.lastObs = o1
+				if fs.lastViol != "" {
+					return o1, fmt.Sprintf("with call %d of kind %s failing once the call succeeded, and: %s", idx, kind, fs.lastViol)
+				}
 				return o1, ""
 			}
 			fs.Oracle[slot] = oracleBefore
@@ -212,8 +218,11 @@ func (fs *faultSession) runWithFault(kind string, idx int, op string) (string, b
 		fs.marCount = 0
 		fs.marFail = idx
 	}
-	o1, _ := fs.Session.Exec(op)
+	fs.Session.transientFault = true
+	o1, v1 := fs.Session.Exec(op)
+	fs.Session.transientFault = false
 	fs.lastErr = o1
+	fs.lastViol = v1
 	fs.Store.FailLoad = nil
 	if kind == "cmp" {
 		hit = fs.cmpCount > idx
